@@ -580,6 +580,9 @@ func (st *Stack) compactRange(first, last int, expiration *LogExpirationConfig) 
 	if os.IsExist(err) {
 		return false, nil
 	}
+	if err != nil {
+		return false, err
+	}
 
 	lockFile.Close()
 	defer func() {
@@ -630,11 +633,12 @@ func (st *Stack) compactRange(first, last int, expiration *LogExpirationConfig) 
 		return false, err
 	}
 
-	lockFileName = st.listFile + ".lock"
-	lockFile, err = os.OpenFile(lockFileName, os.O_EXCL|os.O_CREATE|os.O_WRONLY, 0644)
+	lockFile, err = os.OpenFile(st.listFile+".lock", os.O_EXCL|os.O_CREATE|os.O_WRONLY, 0644)
 	if err != nil {
 		return false, err
 	}
+	// Only now is the lock ours to remove.
+	lockFileName = st.listFile + ".lock"
 
 	defer lockFile.Close()
 
